@@ -80,8 +80,8 @@ CATALOGUE: list[tuple] = [
     ("scanner-error-index", ["C11"], SCANNER, "        value = self.grammar[self.pos : self.pos + 1]", "        value = self.grammar[self.pos]", "fire", "Scanner.error"),
     ("tag-regex-typo", ["C10"], SCANNER, 'RE_TAG = re.compile(r"#[_a-zA-Z][_a-zA-Z0-9]*(?=\\s*=)")', 'RE_TAG = re.compile(r"#[_a-zA-z][_a-zA-Z0-9]*(?=\\s*=)")', "fire", "RE_TAG"),
     ("keyword-no-boundary", ["C10"], SCANNER, 'RE_POP = re.compile(r"POP(?![_a-zA-Z0-9])")', 'RE_POP = re.compile(r"POP")', "fire", "RE_POP"),
-    ("repeat-minmax-swapped", ["C10"], GPARSER, "            return RepeatMinMax(\n                expr, self.parse_int(number), self.parse_int(stop)\n            )", "            return RepeatMinMax(\n                expr, self.parse_int(stop), self.parse_int(number)\n            )", "fire", "parse_repeat_expression"),
-    ("predicates-swapped", ["C10"], GPARSER, "            left = PositivePredicate(self.parse_expression(PRECEDENCE_PREFIX), tag=tag)", "            left = NegativePredicate(self.parse_expression(PRECEDENCE_PREFIX), tag=tag)", "fire", "parse_expression"),
+    ("repeat-minmax-swapped", ["C10"], GPARSER, "            return RepeatMinMax(\n                expr, self.parse_int(number), self.parse_int(stop)\n            )", "            return RepeatMinMax(\n                expr, self.parse_int(stop), self.parse_int(number)\n            )", "fire", ""),
+    ("predicates-swapped", ["C10"], GPARSER, "            left = PositivePredicate(self.parse_expression(PRECEDENCE_PREFIX), tag=tag)", "            left = NegativePredicate(self.parse_expression(PRECEDENCE_PREFIX), tag=tag)", "fire", ""),
     ("unescape-x-cursor", ["C12"], UNESCAPE, "        return chr(_parse_hex_digits(digits, token)), index + 2", "        return chr(_parse_hex_digits(digits, token)), index + 3", "fire", "_decode_escape_sequence"),
     ("unescape-value-error", ["C11"], UNESCAPE, "        if codepoint > 0x10FFFF:  # noqa: PLR2004\n            raise PestGrammarSyntaxError(\n                \"\\\\u{XXXX} escape sequence is not a Unicode code point\", token=token\n            )\n        return chr(codepoint), index", "        return chr(codepoint), index", "fire", "chr(codepoint)"),
     # ---- optimizer / pratt
